@@ -436,7 +436,10 @@ pub mod proj {
         for h in hints {
             let text = String::from_utf8_lossy(h);
             for line in text.split('\n') {
-                for (i, _) in line.match_indices('=') {
+                // the parsers split at the first " = " or strip a trailing " =": the first few
+                // and the last `=` of a line cover both (all of them would be quadratic in a
+                // line of 100 000 `=`)
+                for (i, _) in line.match_indices('=').take(4).chain(line.rmatch_indices('=').take(1)) {
                     out.insert(line[..i].trim().to_string());
                 }
             }
@@ -966,7 +969,8 @@ mod t {
 }
 
 pub fn targets() -> Vec<Target> {
-    const ESPEC_TOK: &[&str] = &["b", "z", "n", "e", "c", "g", ":", "{", "}", "=", "*", ",", "0", "1", "9", "K", "M"];
+    // 18014398509481984 = 2^54: with a K/M unit the size no longer fits 64 bits
+    const ESPEC_TOK: &[&str] = &["b", "z", "n", "e", "c", "g", ":", "{", "}", "=", "*", ",", "0", "1", "9", "K", "M", "18014398509481984"];
     const BPSV_TOK: &[&str] = &["#", "!", "|", ":", "\n", "\r", "S", "D", "H", "0", "1", "a"];
     const CFG_TOK: &[&str] = &["=", "#", "\n", " ", "a", "0"];
     vec![
@@ -1235,12 +1239,34 @@ fn class_count(class: Class, seed: &[u8], full: bool, thorough: bool, c08: bool,
                     total += p;
                     p *= k;
                 }
-                // plus every string of ≤ 2 arbitrary bytes
-                total + 1 + 256 + 65536
+                // plus every string of ≤ 2 arbitrary bytes, plus the repetition cases
+                total + 1 + 256 + 65536 + repeat_count(k)
             }
             None => 0,
         },
         Class::Builder | Class::Fixture => 0,
+    }
+}
+
+const REPEAT_SHORT: usize = 2_000;
+const REPEAT_DEEP: usize = 100_000;
+
+/// Number of repetition cases of the text class over `k` tokens: (k + k²) units × ((k + 1)
+/// endings at REPEAT_SHORT + 1 at REPEAT_DEEP).
+fn repeat_count(k: u64) -> u64 {
+    (k + k * k) * (k + 2)
+}
+
+/// (unit index: < k single token, else pair; repetitions; ending token)
+fn repeat_case(k: u64, c: u64) -> (u64, usize, Option<u64>) {
+    let per = k + 2;
+    let (u, v) = (c / per, c % per);
+    if v == 0 {
+        (u, REPEAT_DEEP, None)
+    } else if v == 1 {
+        (u, REPEAT_SHORT, None)
+    } else {
+        (u, REPEAT_SHORT, Some(v - 2))
     }
 }
 
@@ -1375,6 +1401,32 @@ fn for_each_case(class: Class, seed: &[u8], full: bool, thorough: bool, c08: boo
                     }
                     idx += 1;
                 }
+            }
+            // repetition: a token sequence u of length 1..=2 repeated REPEAT_SHORT times followed by
+            // nothing or one token, and repeated REPEAT_DEEP times (unbounded recursion or a
+            // quadratic loop in a hand-written parser shows as a stack overflow or a CPU limit)
+            let ku = k as u64;
+            for c in 0..repeat_count(ku) {
+                if idx >= hi {
+                    return;
+                }
+                if idx >= lo {
+                    let (u_idx, reps, ending) = repeat_case(ku, c);
+                    let mut unit = String::new();
+                    if u_idx < ku {
+                        unit.push_str(tok[u_idx as usize]);
+                    } else {
+                        let x = u_idx - ku;
+                        unit.push_str(tok[(x % ku) as usize]);
+                        unit.push_str(tok[(x / ku) as usize]);
+                    }
+                    let mut s = unit.repeat(reps);
+                    if let Some(e) = ending {
+                        s.push_str(tok[e as usize]);
+                    }
+                    f(idx, s.as_bytes());
+                }
+                idx += 1;
             }
         }
         Class::Builder | Class::Fixture => {}
